@@ -69,19 +69,33 @@ func runSolver(ctx context.Context, name string, args []string, file string) sol
 
 // Discharge runs all obligations (and covers) of a VC.
 func Discharge(vc *VC, cfg SolverCfg, obls []*Obligation) {
-	if len(obls) == 0 {
-		return
+	var jobs []job
+	for _, o := range obls {
+		jobs = append(jobs, job{vc, o})
 	}
+	DischargeAll(cfg, jobs)
+}
+
+type job struct {
+	vc *VC
+	o  *Obligation
+}
+
+var jobSeq int64
+
+// DischargeAll runs obligations of several functions through one worker pool.
+func DischargeAll(cfg SolverCfg, jobs []job) {
 	var wg sync.WaitGroup
 	sem := make(chan struct{}, cfg.Workers)
-	for i, o := range obls {
+	for _, j := range jobs {
 		wg.Add(1)
 		sem <- struct{}{}
-		go func(i int, o *Obligation) {
+		jobSeq++
+		go func(i int64, j job) {
 			defer wg.Done()
 			defer func() { <-sem }()
-			dischargeOne(vc, cfg, i, o)
-		}(i, o)
+			dischargeOne(j.vc, cfg, int(i), j.o)
+		}(jobSeq, j)
 	}
 	wg.Wait()
 }
